@@ -22,6 +22,9 @@ EXTENDS Integers, Sequences, FiniteSets, TLC
 CONSTANTS Rep,          \* replicas = sources (strings)
           MaxSteps,     \* bound on the length of a behaviour
           Resolutions,  \* subset of {"RemoteWins", "LocalWins", "Merge"}
+          EditCap,      \* a replica edits only while it has generated fewer than EditCap versions (99 = unrestricted)
+          Directed,     \* TRUE: directed family "merge, edit on, merge again, cross pull" - a pull is only taken when it
+                        \* classifies as Conflict, brings a replica its first vector, or fetches a merge result
           RepOrder      \* <<>> or an arrangement of Rep: replicas receive their first vector in this order
                         \* (symmetry reduction: every action and predicate is invariant under renaming replicas;
                         \*  the harness binds the names to real source ids by a seeded permutation)
@@ -250,9 +253,10 @@ Activation(r) == (RepOrder # <<>> /\ hlv[r].src = NoSrc) => \A q \in Rep : Pos(q
 PullClass(r, s) == IF hlv[r].src = NoSrc THEN "NoConflict" ELSE Classify(hlv[r], hlv[s])
 Next ==
   /\ Len(hist) < MaxSteps
-  /\ \/ \E r \in Rep : Activation(r) /\ \E v \in EditVersions(r) : Edit(r, v)
+  /\ \/ \E r \in Rep : Activation(r) /\ gen[r] < EditCap /\ \E v \in EditVersions(r) : Edit(r, v)
      \/ \E r, s \in Rep :
           /\ r # s /\ hlv[s].src # NoSrc /\ Activation(r)
+          /\ Directed => (PullClass(r, s) = "Conflict" \/ hlv[r].src = NoSrc \/ hlv[s].mv # Zero)
           /\ IF PullClass(r, s) = "Conflict"
              THEN \/ \E res \in Resolutions \ {"Merge"} : Pull(r, s, res, 0)
                   \/ "Merge" \in Resolutions /\ \E v \in MergeVersions(r, s) : Pull(r, s, "Merge", v)
